@@ -109,6 +109,18 @@ func (m *c04mon) after(s *sim, st rig.StepResult, ctx stepCtx) {
 						sig = "C04/kept-message-requested-again"
 					}
 				}
+				if sig == sigDroppedAfterGap {
+					ctxClass := "second-gap-from:"
+					switch {
+					case s.lossDuringRecovery:
+						ctxClass += "loss-during-recovery"
+					case m.feat["gap-on-logon"]:
+						ctxClass += "losses-around-logon"
+					default:
+						ctxClass += "losses-in-flight"
+					}
+					c.Class("known-finding-context:" + ctxClass)
+				}
 				vk.Violation(s.t, c, sig, "message %d opens a new recovery for [%d,%d] although %v had already been received and kept during the previous recovery (they were dropped when it ended)\n%s", n, ctx.tBefore, n-1, again, s.history())
 			}
 		}
@@ -166,6 +178,9 @@ func (m *c04mon) after(s *sim, st rig.StepResult, ctx stepCtx) {
 		sig := "C04/kept-message-not-delivered"
 		if m.dropped[T2] {
 			sig = sigDroppedAfterGap
+		}
+		if sig == sigDroppedAfterGap {
+			c.Class(fmt.Sprintf("known-finding-context:next-in-sequence-after-drop(loss-during-recovery=%v,gap-on-logon=%v)", s.lossDuringRecovery, m.feat["gap-on-logon"]))
 		}
 		vk.Violation(s.t, c, sig, "the requested range is complete, message %d was received early and is next in sequence, but it was not delivered (kept: %v)\n%s", T2, keys(m.kept), s.history())
 	}
@@ -264,15 +279,30 @@ func c04Property(t *rapid.T) {
 	}
 	// a live message lost while a recovery is in progress opens a second gap behind kept
 	// messages; that region is explored, but rarely, so that most scenarios go on behind it
+	// (the same holds before the engine has noticed the first gap: while an earlier loss has not
+	// been repaired yet, a separate later loss puts kept messages behind a second gap)
+	lossOutstanding := false
 	lossCoin := func(t *rapid.T) bool {
-		if mon.ep != nil || len(s.pendingReplays) > 0 {
-			if rapid.IntRange(0, 15).Draw(t, "lost-during-recovery") == 0 {
+		if lossOutstanding && s.r.T() >= s.p.NextOut && len(s.link) == 0 {
+			lossOutstanding = false
+		}
+		if mon.ep != nil || len(s.pendingReplays) > 0 || lossOutstanding {
+			// (rapid's integer ranges favour small values, so a rare event is drawn as a run of fair coins: 2^-7)
+			rare := true
+			for i := 0; i < 7 && rare; i++ {
+				rare = rapid.Bool().Draw(t, "lost-during-recovery")
+			}
+			if rare {
 				s.lossDuringRecovery = true
 				return true
 			}
 			return false
 		}
-		return rapid.IntRange(0, 3).Draw(t, "lost") == 0
+		if rapid.IntRange(0, 3).Draw(t, "lost") == 0 {
+			lossOutstanding = true
+			return true
+		}
+		return false
 	}
 	s.p.Overfill = rapid.Bool().Draw(t, "peer-overfills-gapfill")
 	relogon := func() {
@@ -292,9 +322,10 @@ func c04Property(t *rapid.T) {
 			s.peerLive(rapid.SampledFrom([]string{"0", "1"}).Draw(t, "type"), lossCoin(t))
 		},
 		"burstLoss": func(t *rapid.T) {
-			if mon.ep != nil || len(s.pendingReplays) > 0 {
+			if mon.ep != nil || len(s.pendingReplays) > 0 || lossOutstanding {
 				t.Skip("recovery in progress")
 			}
+			lossOutstanding = true
 			n := rapid.IntRange(1, 12).Draw(t, "n")
 			for i := 0; i < n; i++ {
 				s.peerLive(rapid.SampledFrom([]string{"D", "D", "0"}).Draw(t, "type"), true)
